@@ -5,7 +5,8 @@
    [parse_flv], [parse_video], [parse_audio], [parse_script], [parse_avcc], [parse_hvcc] are the
    independent readers; [flv_ok] is the oracle bin/check applies to the implementation's bytes. *)
 From Coq Require Import ZArith List Bool.
-From V Require Import Bytes C08Amf0 C08Flv C08Fanout C08Amf0Proofs C08FlvProofs C08FanoutProofs.
+From V Require Import Bytes C15BitFmt C15Ebsp C15H264 C15Hevc C08Amf0 C08Flv C08Fanout C08Hevc
+  C08Amf0Proofs C08FlvProofs C08FanoutProofs C08HevcProofs.
 Import ListNotations.
 Open Scope Z_scope.
 
@@ -121,6 +122,68 @@ Theorem C08_model_passes : forall c fs k t0,
   case_wf c fs k = true -> flv_ok c fs k (flv_bytes c fs k t0) = true.
 Proof. exact model_passes_lemma. Qed.
 Print Assumptions C08_model_passes.
+
+(* H.265: the decoder configuration record describes the stream's parameter sets.  For every VPS and
+   SPS emitted from field values by the standard's syntax description (C15: [std_h265_vps],
+   [std_h265_sps]; sub-layers, sub-layer profile/level flags, all profiles, chroma formats, VUI, ...),
+   the sequence-header tag parses, carries exactly these VPS/SPS/PPS, and its general fields are those
+   ISO/IEC 14496-15 8.3.3.1 asks for, stated on the field values ([hvcc_spec]): profile space,
+   highest tier, its level, greatest profile_idc, AND of the compatibility and constraint flags, chroma
+   format, bit depths, number of temporal layers, temporalIdNested, 4-byte NAL lengths.
+   Guards: [hvcc_ranges] (values within their descriptor widths, bit depths <= 15 bits, <= 7 layers) *)
+Theorem flv_hevc_config_describes_parameter_sets : forall c rv bv av rs bs a,
+  c_hevc c = true ->
+  emit std_h265_vps rv env0 = Some (bv, av) -> emit std_h265_sps rs env0 = Some (bs, a) ->
+  c_vps c = nal_of_bits bv -> c_sps c = nal_of_bits bs ->
+  nal_shape_ok (c_vps c) = true -> nal_shape_ok (c_sps c) = true ->
+  hvcc_ranges av a = true ->
+  zlen (c_vps c) < 65536 -> zlen (c_sps c) < 65536 -> zlen (c_pps c) < 65536 ->
+  exists v pv o,
+    vseq_tag (cfg_derived c false) = Some v /\
+    parse_video (t_data v) = Some pv /\ v_frametype pv = 1 /\ v_codec pv = 12 /\ v_pkt pv = 0 /\
+    parse_hvcc (v_body pv) = Some (o, c_vps c, c_sps c, c_pps c) /\
+    hvcc_fields o = hvcc_spec av a.
+Proof. exact hevc_config_describes_lemma. Qed.
+Print Assumptions flv_hevc_config_describes_parameter_sets.
+
+(* the record oracle applied to the implementation accepts the model, for all records *)
+Theorem C08_hvcc_model_passes : forall rv rs, hvcc_ok rv rs (hvcc_of_records rv rs) = true.
+Proof. exact hvcc_model_passes_lemma. Qed.
+Print Assumptions C08_hvcc_model_passes.
+
+(* onMetaData width / height / frame rate of a stream whose meta data come from the SPS are the
+   standard's derived values (conformance cropping window, VUI timing) *)
+Theorem flv_hevc_metadata_describes_sps : forall rec b a,
+  emit std_h265_sps rec env0 = Some (b, a) -> h265_ranges a = true -> nal_shape_ok (nal_of_bits b) = true ->
+  derive_meta true (nal_of_bits b) = (spec_width265 a, spec_height265 a, fps_bits (spec_fps265 a)).
+Proof. exact hevc_meta_describes_lemma. Qed.
+Print Assumptions flv_hevc_metadata_describes_sps.
+Theorem flv_h264_metadata_describes_sps : forall rec b a,
+  emit std_h264_sps rec env0 = Some (b, a) -> h264_ranges a = true -> nal_shape_ok (nal_of_bits b) = true ->
+  derive_meta false (nal_of_bits b) = (spec_width a, spec_height a, fps_bits (spec_fps a)).
+Proof. exact h264_meta_describes_lemma. Qed.
+Print Assumptions flv_h264_metadata_describes_sps.
+
+(* H.264: profile / compatibility / level bytes of the AVCDecoderConfigurationRecord = SPS bytes 1..3,
+   one SPS and one PPS equal to the stream's *)
+Theorem flv_avc_config_describes_sps : forall sps pps r,
+  avcc sps pps = Some r -> zlen sps < 65536 -> zlen pps < 65536 ->
+  parse_avcc r = Some (firstn 3 (skipn 1 sps), sps, pps).
+Proof. exact parse_avcc_ok. Qed.
+Print Assumptions flv_avc_config_describes_sps.
+
+(* non-vacuity: Main10, three temporal layers, 4:2:0, 10 bit, 1920x1088 *)
+Example C08_hevc_nonvacuous :
+  match emit std_h265_vps ex_vps_rec env0, emit std_h265_sps ex_sps_rec env0 with
+  | Some (bv, av), Some (bs, a) =>
+      nal_shape_ok (nal_of_bits bv) = true /\ nal_shape_ok (nal_of_bits bs) = true /\
+      hvcc_ranges av a = true /\
+      hvcc_fields (hvcc_of_nals (nal_of_bits bv) (nal_of_bits bs)) =
+        mkHF 0 0 2 536870912 158329674399744 123 0 0 1 2 2 0 0 3 1 3 /\
+      derive_meta true (nal_of_bits bs) = (1920, 1088, 0)
+  | _, _ => False
+  end.
+Proof. exact hevc_example. Qed.
 
 (* several clients of one stream share the tag objects (GOP cache + every client's queue hold the
    same reference).  For every tag store and every schedule of deliveries, attachments (served from
